@@ -26,7 +26,12 @@ type svcGen struct {
 	nfn    int
 	nsvc   int
 	nexc   int
+	// streaming: functions annotated (streaming.mode = "<mode>"). idlgen's AST has no function annotations; the text
+	// is carried by the (verbatim rendered) default of the single argument: `i32 a0 = 5) (streaming.mode = "unary"` + `)`.
+	streaming map[*idlgen.Function]string
 }
+
+var streamingModes = []string{"unary", "client", "server", "bidirectional"}
 
 func norm(s string) string { return strings.ToLower(strings.ReplaceAll(s, "_", "")) }
 
@@ -236,6 +241,19 @@ func (g *svcGen) service(fi int) {
 	}
 	for i, n := 0, 1+g.r.Intn(4); i < n; i++ {
 		fn := &idlgen.Function{Name: g.global("fn", stressFnNames, &g.nfn)}
+		if i > 0 && g.r.Chance(22) {
+			// a streaming function: exactly one argument; removed by the go backend unless thrift_streaming is given
+			mode := streamingModes[g.r.Intn(len(streamingModes))]
+			if g.r.Bool() {
+				fn.Ret = base(idlgen.I32)
+			}
+			fn.Args = []*idlgen.Field{{ID: 1, HasID: true, Name: "a0", Type: base(idlgen.I32),
+				Default: &idlgen.Const{Kind: idlgen.CInt, Text: `5) (streaming.mode = "` + mode + `"`, Val: values.Int(5)}}}
+			g.streaming[fn] = mode
+			g.count("svc.fn.streaming." + mode)
+			sv.Functions = append(sv.Functions, fn)
+			continue
+		}
 		switch x := g.r.Intn(100); {
 		case x < 15:
 			fn.Oneway = true
@@ -292,8 +310,8 @@ func (g *svcGen) service(fi int) {
 }
 
 // addServices puts nsvc services into the program (included files first so that extends can cross files).
-func addServices(r *vl.Rng, p *idlgen.Program, stress bool, nsvc int, count func(string)) {
-	g := &svcGen{r: r, p: p, stress: stress, used: map[string]bool{}, count: count}
+func addServices(r *vl.Rng, p *idlgen.Program, stress bool, nsvc int, count func(string)) map[*idlgen.Function]string {
+	g := &svcGen{r: r, p: p, stress: stress, used: map[string]bool{}, count: count, streaming: map[*idlgen.Function]string{}}
 	for _, f := range p.Files {
 		for _, t := range f.Typedefs {
 			g.used[norm(t.Name)] = true
@@ -326,6 +344,7 @@ func addServices(r *vl.Rng, p *idlgen.Program, stress bool, nsvc int, count func
 			}
 		}
 	}
+	return g.streaming
 }
 
 // ---------------------------------------------------------------- service tables (what goes to Lean)
@@ -338,6 +357,7 @@ type methodInfo struct {
 	Void     bool
 	NThrows  int
 	Fn       *idlgen.Function
+	Mode     string // streaming mode ("" = an ordinary function)
 }
 
 type svcInfo struct {
@@ -345,13 +365,14 @@ type svcInfo struct {
 	File    int
 	Name    string
 	Base    int // -1
-	Own     []*methodInfo
+	Own     []*methodInfo // the functions the go backend keeps (not streaming)
+	Removed []*methodInfo // streaming functions: removed from interface, client and processor (backend.go removeStreamingFunctions)
 	All     []*methodInfo // own ++ base's All
 	Service *idlgen.Service
 }
 
 // serviceTable derives the services of a program with the schema indexes of their synthesized structs.
-func serviceTable(p *idlgen.Program, s *idlgen.Schema) []*svcInfo {
+func serviceTable(p *idlgen.Program, s *idlgen.Schema, streaming map[*idlgen.Function]string) []*svcInfo {
 	sidx := map[string]int{}
 	for i, st := range s.Structs {
 		if st.Synth {
@@ -368,6 +389,11 @@ func serviceTable(p *idlgen.Program, s *idlgen.Schema) []*svcInfo {
 				m.ArgsSidx = sidx[fmt.Sprintf("%d/%s/%s_args", fi, sv.Name, fn.Name)]
 				if !fn.Oneway {
 					m.ResSidx = sidx[fmt.Sprintf("%d/%s/%s_result", fi, sv.Name, fn.Name)]
+				}
+				if mode, ok := streaming[fn]; ok {
+					m.Mode = mode
+					si.Removed = append(si.Removed, m)
+					continue
 				}
 				si.Own = append(si.Own, m)
 			}
@@ -400,13 +426,23 @@ func (si *svcInfo) vLine(u string) string {
 	if si.Base >= 0 {
 		b = strconv.Itoa(si.Base)
 	}
-	fmt.Fprintf(&sb, "V %s %d %s %d", u, si.Idx, b, len(si.Own))
-	for _, m := range si.Own {
+	// every function of the IDL service in IDL order, with its streaming mode ("-" = none): the MODEL applies the filter
+	fmt.Fprintf(&sb, "V %s %d %s %d", u, si.Idx, b, len(si.Service.Functions))
+	byFn := map[*idlgen.Function]*methodInfo{}
+	for _, m := range append(append([]*methodInfo{}, si.Own...), si.Removed...) {
+		byFn[m.Fn] = m
+	}
+	for _, fn := range si.Service.Functions {
+		m := byFn[fn]
 		res := "-"
 		if m.ResSidx >= 0 {
 			res = strconv.Itoa(m.ResSidx)
 		}
-		fmt.Fprintf(&sb, " %s %d %s %s %s %d", vl.Hex(m.Name), m.ArgsSidx, res, vl.B(m.Oneway), vl.B(m.Void), m.NThrows)
+		mode := "-"
+		if m.Mode != "" {
+			mode = m.Mode
+		}
+		fmt.Fprintf(&sb, " %s %d %s %s %s %d %s", vl.Hex(m.Name), m.ArgsSidx, res, vl.B(m.Oneway), vl.B(m.Void), m.NThrows, mode)
 	}
 	return sb.String()
 }
